@@ -12,20 +12,25 @@ claim('C18', 'proof',
       'DESIGN.md 4/C18')
 claim('C12', 'other',
       'literal-table proof (24+8 permutation entries vs parity) + decision-ladder normalisation and sibling '
-      'comparison of the sign-translation functions (ast)',
+      'comparison of the sign-translation functions (ast); alias discipline around the stereo cache; normalised both-ends-distinct predicates; '
+      'STEREO dimension of the mutator protocol',
       'decides the structural clauses: the two permutation tables equal parity / side-exchange (finite, exhaustive), '
       'the translation ladders produce exactly the table keys with matching indices, hydrogen fallbacks only on '
-      'optional positions, sign flips exactly when the table says so; geometric sign functions, stereocentre '
-      'detection and agreement with another toolkit are NOT decided',
+      'optional positions, sign flips exactly when the table says so; fix_stereo re-reads the chiral sets after every flush and leaves its loop '
+      'without a flush only when nothing was restored; copies keep the neighbour order signs are relative to; a ring-linker / cumulene / tetrahedron '
+      'counts as a centre only with distinguishable substituents at both ends; every structural edit reaches fix_stereo. Geometric sign functions, '
+      'symmetry ranks and agreement with another toolkit are NOT decided',
       'trusts: ast parser; convention "True = flip"; undecided clauses listed in evidence.coverage.undecided_clauses',
       'DESIGN.md 4/C12')
 claim('C13', 'other',
       'path-sensitive typestate/effect analysis over the ast (configuration sets, callee inlining with constant '
-      'keyword contexts, witness-collection facts) + construction / ownership / restore rules',
+      'keyword contexts, witness-collection facts) + construction / ownership / restore rules + alias discipline around the instance cache + '
+      'fresh-key and pending-set accumulator rules',
       'decides the protocol clause: every one of the ~35 public methods of the MoleculeContainer MRO that reach a raw '
       'state write (98 write sites) flushes without keeping stale values, relabels, recomputes hydrogens and '
       're-validates stereo on every normal exit; plus keep-list soundness, slot construction, copy ownership and '
-      'transaction restore completeness. It proves that no stale derived value can be served by the protocol, NOT '
+      'transaction restore completeness, cached values never mutated / used stale / shared between containers, new atom numbers above every '
+      'existing one, pending recalculation set only ever extended. It proves that no stale derived value can be served by the protocol, NOT '
       'that freshly computed values are right (that is C01/C04/C06).',
       'trusts: the exemption table in sa/r_protocol.py (each row one symbol + reason), access-path recognition of '
       'raw state (self._atoms/_bonds, aliases, objects drawn from them), primitives calc_labels/calc_implicit/'
@@ -39,35 +44,41 @@ claim('C09', 'other',
       'heteroatoms, hybridisation, ring sizes) both encoders use the same word and bit; fields are disjoint; every '
       'wildcard constant equals the OR over its domain; AnyElement/AnyMetal masks equal the element sets computed '
       'from the tables; struct formats, zip order and .pyx packed structs correspond; both paths consult the same '
-      'attributes; fallbacks select the reference matcher. It does NOT decide equivalence of the two search loops.',
+      'attributes; fallbacks select the reference matcher; the per-call search restriction (scope) reaches both back-ends. It does NOT decide equivalence of the two search loops.',
       'trusts: attribute domains listed in evidence.assumptions; ROLE table as buffer contract; the .pyx analysed as text',
       'DESIGN.md 3.D, 4/C09')
 claim('C03', 'other',
       'exception-flow analysis over the reader layer (raise-class family through the exceptions.py hierarchy, enclosing '
       'handler conversion), frozen guard instances for every indexing/lookup on input-derived data, end-of-input state '
-      'exhaustiveness of the tokenizer, regex-language enumeration (re._parser) vs the charge table, negative-count slices',
+      'exhaustiveness of the tokenizer, regex-language enumeration (re._parser) vs the charge table with rejection of the surplus, negative-count '
+      'slices, role-order pairing, reserve/fill pairing of ring-closure slots',
       'decides the rejection clause only: no KeyError/IndexError/TypeError/StopIteration can escape smiles() for string '
       'input through any reviewed operation, every explicit raise is a ValueError subclass, every charge spelling of the '
-      'table is reachable, reaction role slices use non-negative offsets. It does NOT decide that the molecule built is '
+      'table is reachable and every other string the regex admits meets a raise, reaction role slices use non-negative offsets, parsed per-role data '
+      'is paired with molecules in the order molecules() yields them, ring-closure partners land in the neighbour-order slot reserved for them. It does NOT decide that the molecule built is '
       'the one the language defines (needs an independent reader as oracle).',
       'trusts: DAYLIGHT_TABLE (reviewed operations with their guards/invariants); int()/float()/unpacking raise ValueError (accepted)',
       'DESIGN.md 3.E, 4/C03')
 claim('C08', 'other',
       'decision-ladder normalisation of every query __eq__ to a rejection DNF over canonical predicates compared with the '
-      'documented semantics table; primitive-letter plumbing; constructor keyword coverage; reader exception discipline on the smarts() path',
+      'documented semantics table; primitive-letter plumbing; constructor keyword coverage; guard ladders of the constraint normalisers evaluated '
+      'over finite sample domains; neighbour-class partition of calc_labels; reader exception discipline on the smarts() path',
       'decides: each of QueryElement/AnyElement/ListElement/AnyMetal/QueryBond rejects exactly under the documented '
       'conditions (robust to re-ordering/re-nesting), every SMARTS primitive letter lands in the attribute its documentation '
-      'names, and malformed SMARTS is rejected with IncorrectSmarts/ValueError rather than an unrelated exception. '
+      'names, only None means "no constraint" (0 is a constraint) and the admitted ranges are the documented ones, the neighbour / hydrogen / '
+      'heteroatom labels the predicates read partition the neighbours, and malformed SMARTS is rejected with IncorrectSmarts/ValueError rather than an unrelated exception. '
       'Correctness of the atom labels the predicates read is C06/C13.',
       'trusts: EXPECTED semantics table in sa/r_query.py; DAYLIGHT_TABLE',
       'DESIGN.md 3.F-q, 4/C08')
 claim('C01', 'other',
       'syntactic dataflow rules over the canonicalisation code (order-insensitive aggregation before hashing, '
-      'int-only hash inputs, sort-key == group-key) + wiring of __eq__/__hash__ + FLUSH dimension of the mutator protocol',
+      'int-only hash inputs, sort-key == group-key, FIFO discipline of level-labelling worklists) + wiring of __eq__/__hash__ + FLUSH dimension '
+      'of the mutator protocol + alias discipline of cached ranks + dependence check of the pre-seeded canonical string',
       'decides necessary structural conditions only: equality/hash are the canonical string; each refinement step '
       'sorts neighbour contributions before hashing; the hashed invariants are structure-only integers (no atom '
-      'number, coordinate, string); final classes are ranked by the hash value; every mutator flushes the cached '
-      'string/orders. Whether the DFS writer breaks all remaining ties identically for every numbering is NOT decided.',
+      'number, coordinate, string); final classes are ranked by the hash value; the breadth-first distance labels used as tie-breaker are '
+      'computed first-in-first-out; every mutator flushes the cached string/orders; the stereo-aware ranks are dropped whenever fix_stereo '
+      'restores labels and cached ranks are never edited in place; every site that pre-fills the __str__ cache composes what __str__ composes. Whether the DFS writer breaks all remaining ties identically for every numbering is NOT decided.',
       'trusts: allow-list of integer attributes; exemption table of the mutator protocol',
       'DESIGN.md 4/C01')
 claim('C17', 'other',
@@ -81,7 +92,8 @@ claim('C17', 'other',
       'DESIGN.md 4/C17')
 claim('C19', 'other',
       'syntactic rules: seed-independent (int-only) hash inputs, order-insensitive aggregation, no ambient '
-      'nondeterminism outside a frozen list, manual cache seeding uses the owner\'s canonical call, kept caches read structure only',
+      'nondeterminism outside a frozen list, manual cache seeding uses the owner\'s canonical call and composes what the owner composes, kept caches '
+      'read structure only, cached values never mutated in place',
       'decides necessary conditions for run-to-run identity: no string/object hash or unsorted dict iteration feeds an '
       'ordering decision, random/time/id/uuid are not called outside documented randomised functions, the three '
       'places that pre-seed cached strings compute what the owning function computes, copy(keep_*) transfers only '
@@ -90,30 +102,36 @@ claim('C19', 'other',
       'DESIGN.md 4/C19')
 claim('C04', 'other',
       'literal valence-table compilation (data transform re-implemented), definite-assignment walk over calc_implicit, '
-      'sibling comparison of the three rule-evaluation copies, decision-table extraction of the aromatic shortcut, attribute read sets of the totals',
+      'sibling comparison of the three rule-evaluation copies, index-domain typing of the environment keys, decision-table extraction of the aromatic '
+      'shortcut, attribute read sets of the totals, pending-set accumulator discipline + HYDRO dimension of the mutator protocol',
       'decides: all 118 valence tables compile and are well shaped; every exit of calc_implicit assigns the count (no stale '
       'value); calc_implicit / check_implicit / implicify_hydrogens accumulate the same environment (coordinate bonds '
       'excluded) and test the same predicate; the aromatic-carbon shortcut equals its chemical table; formula/mass/charge/'
-      'radical totals read hydrogens of all atoms; check_valence reports exactly None counts. That the tabulated valences '
+      'radical totals read hydrogens of all atoms; check_valence reports exactly None counts; every edit records the atoms whose environment changed in '
+      'the pending set (only ever extended) and every mutator reaches the recalculation. That the tabulated valences '
       'are chemically right is NOT decided.',
       'trusts: the aromatic carbon table (2 aromatic bonds use 3 valence units, 3 use 4)',
       'DESIGN.md 4/C04')
 claim('C02', 'other',
       'writer<->reader code-book agreement by literal-table extraction, regex-language enumeration and decision-ladder '
-      'extraction; attribute read sets of the atom formatter; chirality-mark polarity and first-atom predicate agreement',
+      'extraction; attribute read sets of the atom formatter; chirality-mark polarity and first-atom predicate agreement; reserve/fill pairing of '
+      'ring-closure slots in the neighbour order; dependence check of the pre-seeded canonical string',
       'decides: every charge/bond/hydrogen/closure/symbol token the writer can emit is read back to the same value; a single '
       'bond between aromatic atoms is written explicitly; the atom token carries element, isotope, charge, hydrogens, '
       'stereo, radical (CX block always appended); @ <-> True on both sides and both reverse it exactly for atoms without '
-      'a preceding atom; the sign-translation tables/ladders both sides use are consistent. Correctness of cis/trans '
+      'a preceding atom (chain starts recorded per component); a ring-closure digit fills exactly the neighbour-order slot it reserved; the cached '
+      'string always carries the CX radical block; the sign-translation tables/ladders both sides use are consistent. Correctness of cis/trans '
       'direction-mark propagation for arbitrary traversals is NOT decided.',
       'trusts: atom maps <= 9999 (reader regex); organic subset elements cannot be aromatic unless b,c,n,o,p,s',
       'DESIGN.md 4/C02')
 claim('C05', 'other',
       'mutator-protocol typestate walk restricted to kekule / enumerate_kekule / thiele, constant propagation over the bond '
-      'orders the Kekule search and thiele can store, literal rule-table applicability',
+      'orders the Kekule search and thiele can store, literal rule-table applicability, generator ownership (yield-then-mutate / borrowed-from-pool) '
+      'over the Kekule enumeration, donor-guard obligation of the ring-tautomer hydrogen move',
       'decides: every bond-order rewrite of the conversions is followed by flush (with sound keep flags), relabel, hydrogen '
       'recomputation (kekule) and stereo fix (thiele) on every exit; a Kekule form can only contain orders 1/2 and thiele only '
-      'stores 4/1; the aromatic repair rules index only atoms of their own patterns. Existence/uniqueness of the alternation, '
+      'stores 4/1; the aromatic repair rules index only atoms of their own patterns; an enumerated Kekule form is never edited after it was yielded or '
+      'pooled; the tautomer fix moves a hydrogen only from a nitrogen whose guard establishes that it has one. Existence/uniqueness of the alternation, '
       'idempotence and "all Kekule forms aromatise to one form" are NOT decided (search behaviour).',
       'trusts: exemption table rows for kekule/thiele (documented: keeps stereo as is; aromatisation keeps Kekule H counts)',
       'DESIGN.md 4/C05')
@@ -127,24 +145,27 @@ claim('C06', 'other',
       'DESIGN.md 4/C06')
 claim('C14', 'other',
       'mutator-protocol typestate walk over the normalisers, literal rule-table applicability (117 rules + 17 charge rules '
-      'against a SMARTS atom scanner), write-set (effect) check for the atom set',
+      'against a SMARTS atom scanner), index-domain typing of the rule-application loops, write-set (effect) check for the atom set, fresh-key rule',
       'decides: every normaliser leaves caches/labels/hydrogens/stereo coherent; every built-in rule indexes only atoms of its '
       'own pattern with orders/deltas in range ("never fail" for dangling indices); only hydrogen (im)explicification and salt '
-      'stripping can change the atom set and they touch hydrogens / whole components only. Charge/hydrogen conservation per '
+      'stripping can change the atom set and they touch hydrogens / whole components only; pattern indices and molecule atom numbers are never '
+      'confused; new hydrogens get numbers above every existing atom. Charge/hydrogen conservation per '
       'rule, idempotence and numbering independence are NOT decided.',
       'trusts: SMARTS atom scanner for the documented subset; exemption table',
       'DESIGN.md 4/C14')
 claim('C07', 'other',
       'control-dependence check of every admission site of the reference matcher (guard kinds classified from the ast) and of '
-      'the .pyx matcher (text), wiring check of the automorphism filter and comparison operators',
+      'the .pyx matcher (text), wiring check of the automorphism filter and comparison operators, index-domain typing of the reference matcher, '
+      'generator ownership of the yielded mappings',
       'decides soundness guards only: no target atom is admitted without scope, atom, injectivity, bond, closure-set-equality '
       'and closure-bond tests; the filter keys on the unordered image set; operators are wired to is_substructure with the '
-      'right length tests. Completeness of the search (no mapping lost) is NOT decided.',
+      'right length tests; query-atom and molecule-atom numbers are never confused; a mapping is never edited after it was yielded and values drawn '
+      'from lazy_product are copied before they are merged. Completeness of the search (no mapping lost) is NOT decided.',
       'trusts: variable naming of the matcher (guard classification is by operand names); the .pyx analysed as text',
       'DESIGN.md 4/C07')
 claim('C15', 'other',
       'syntactic role-order / sort-before-index rules over the reaction writer and reader, value-provenance check of '
-      'MoleculeContainer.compose (self -> reactant slot, other -> product slot), literal signature tables (completeness, injectivity)',
+      'MoleculeContainer.compose (self -> reactant slot, other -> product slot), literal signature tables (completeness, injectivity), role-order pairing',
       'decides: writer and reader use the same role order; molecules of a role are sorted by their strings before CX indices are '
       'computed; the condensed graph takes reactant values from the left operand and product values from the right one; dynamic '
       'flags are exactly the reactant/product attribute differences; the dynamic bond/charge/radical token tables are complete and '
@@ -162,22 +183,23 @@ claim('C20', 'other',
 claim('C10', 'other',
       'bit-provenance abstract interpretation of the straight-line integer code of both .pyx codecs (text -> cast stripping -> ast), '
       'comparison with the published field table; linear-form normalisation of the size arithmetic of writer / reader / '
-      'pack_len; literal-table comparison of the duplicated isotope tables; limit guards; negative-count slices',
+      'pack_len; literal-table comparison of the duplicated isotope tables; limit guards; negative-count slices; table / inverse-table pairing of '
+      'the cis-trans records',
       'decides: every bit of every field of the 9-byte atom record and the header sits where the published version-2 layout '
       'puts it, in the writer and in the reader; stereo / hydrogen / charge code books agree; section sizes of writer, reader '
       '(v2 and v0) and pack_len agree; the two isotope tables equal each other and the element data; every tabulated isotope, '
       'charge and hydrogen count is representable; the documented limits are enforced; reaction roles are cut with non-negative '
-      'offsets. Float16 accuracy, the connection-table / order bit streams, zlib and the shipped corpus are NOT decided.',
+      'offsets; cis/trans records hold the terminal pair and are resolved back through the terminal->centre table. Float16 accuracy, the connection-table / order bit streams, zlib and the shipped corpus are NOT decided.',
       'trusts: the published layout table; regex-level extraction of the .pyx statements (fail-closed)',
       'DESIGN.md 3.D, 4/C10')
 claim('C11', 'other',
       'exception-family analysis of the record iterators vs every explicit raise of the MDL/RDF/MRV layer; literal code-book '
       'inversion for V2000/V3000 charge, isotope, radical and wedge codes; role-order / cumulative-offset check of the reaction '
-      'parsers; attribute-name agreement of the MRV writer and reader',
+      'parsers; role-order pairing of parsed blocks with molecules(); attribute-name agreement of the MRV writer and reader',
       'decides: a damaged record cannot stop iteration (handlers cover the ValueError family and LookupError, every explicit '
       'raise of the record parsers is inside that family, documented aborts are a frozen table); charge/wedge/property-line '
       'code books are mutually inverse incl. the M  CHG rule for +-4; reaction roles are written and partitioned in the same '
-      'order with non-negative cumulative offsets; MRV attribute names agree. Column formatting, geometry and metadata text '
+      'order with non-negative cumulative offsets; stereo post-processing pairs each parsed block with the molecule of the same role; MRV attribute names agree. Column formatting, geometry and metadata text '
       'round trip are NOT decided.',
       'trusts: EXEMPT table of documented aborts in sa/props/c11.py',
       'DESIGN.md 3.E, 4/C11')
